@@ -88,8 +88,11 @@ def plan_C01(tier, seed):
         for n in range(1, 6):
             alpha = A5 if n <= nmax_full else A3
             m = MULTS[(n - 1) % len(MULTS)]
-            # reset is part of every history: t counts inputs since construction or reset
-            jobs.append(closed("%s_n%d" % (kind, n), kind, n, salpha=alpha, m=m, resets={1} if n <= 3 else ()))
+            # reset is part of every history (t counts inputs since construction or reset): from every reachable state, reset
+            # followed by fresh values (a state after reset merges with the initial state in the VIEW, so the continuation
+            # is what makes the real post-reset instance run)
+            conts = [[{"op": "reset", "i": 1}] + ct for ct in continuations(kind, n)] if n <= 3 else []
+            jobs.append(closed("%s_n%d" % (kind, n), kind, n, salpha=alpha, m=m, resets={1} if n <= 3 else (), conts=conts))
         if tier == "thorough":
             # wider alphabet for short periods, and the other multipliers
             for n in (1, 2, 3):
@@ -340,7 +343,7 @@ def plan_C04(tier, seed):
     q = tier == "quick"
     rng = random.Random(seed * 32452843 + 4)
     jobs = []
-    inv = ("Refines", "Safe")
+    inv = ("Refines", "Safe", "ResetToInit")
     for kind in ALL22:
         for n in ((1, 2, 3) if q else (1, 2, 3, 4)):
             if kind in ("TR", "OBV") and n > 1:
@@ -428,6 +431,7 @@ def plan_C05(tier, seed):
                 "interleaved continuations; replayed on 16 threads; any two real instances with the same configuration and literal history must "
                 "return bit-identical outputs, within a behaviour, across behaviours and across threads, and equal the spec's value",
         "assumptions": COMMON_ASSUME + ["real thread schedules are observed, not controlled; instances are never shared between threads"],
+        "stages": [trace_stage_factory(threads=16, ops_quick=600, ops_thorough=3000, faults=False)],
     }
 
 
@@ -776,6 +780,7 @@ def plan_C12(tier, seed):
                 "varying cursor positions, then reset and reuse; spec invariant Safe (every ring index in range, counters within bounds) holds on all of them; in the "
                 "real crate (built with overflow checks and debug assertions) next, reset, clone, Display, Debug, bincode and serde_json must return after every op",
         "assumptions": ["memory safety itself is not observed beyond the absence of panics (safe Rust, bounds-checked)", "TLC and serde_json are trusted"],
+        "stages": [cursor_proof_stage, trace_stage_factory(threads=8, ops_quick=700, ops_thorough=4000, faults=True)],
     }
 
 
@@ -1242,3 +1247,140 @@ PLANS = {
     "C03": plan_C03,
     "C02": plan_C02,
 }
+
+
+# ---------------------------------------------------------------------------------------------
+# impl -> spec: the driver records a trace of the real crate, TLC validates it against TaTrace.tla
+
+def trace_stage_factory(threads, ops_quick, ops_thorough, faults):
+    import os, json, subprocess, time, shutil, re
+    import tlagen
+
+    def stage(prop, tier, seed, WORK, BIN):
+        d = os.path.join(WORK, prop, "trace")
+        shutil.rmtree(d, ignore_errors=True)
+        os.makedirs(d)
+        nops = ops_quick if tier == "quick" else ops_thorough
+        p = subprocess.run([BIN, "drive", "--seed", str(seed), "--threads", str(threads), "--ops", str(nops), "--faults", "1" if faults else "0", "--out", d],
+                           stdout=subprocess.PIPE, stderr=subprocess.STDOUT, text=True)
+        if p.returncode != 0:
+            raise ToolError("driver failed: " + p.stdout[-500:])
+        return validate_trace(prop, d, {"seed": seed, "threads": threads, "ops": nops, "faults": faults})
+    return stage
+
+
+def validate_trace(prop, d, how):
+    import os, json, subprocess, time, shutil, re
+    import tlagen
+    meta = json.load(open(os.path.join(d, "cfgs.json")))
+    cfgs = {}
+    for k, c in meta["cfgs"].items():
+        cfgs[int(k)] = {"kind": c["kind"], "n": c["n"], "n2": c["n2"], "n3": c["n3"], "m": Fr(c["m"][0], c["m"][1]), "seed": Fr(c["seed"][0], c["seed"][1])}
+    for f in os.listdir(tlagen.SPEC_DIR):
+        if f.endswith(".tla"):
+            shutil.copy(os.path.join(tlagen.SPEC_DIR, f), d)
+    mod = "---- MODULE MC_trace ----\nEXTENDS TaTrace\nmcIds == %s\nmcSlots == %s\nmcCfgOf == %s\n====\n" % (
+        tlagen.tla(set(cfgs.keys())), tlagen.tla(set(meta["slots"])), tlagen.tla(cfgs))
+    cfgt = """CONSTANTS
+ Ids <- mcIds
+ Slots <- mcSlots
+ CfgOf <- mcCfgOf
+ Initial = {}
+ SAlpha = {}
+ BAlpha = {}
+ Toks = {}
+ Resets = {}
+ Clones = {}
+ Saves = {}
+ Restores = {}
+ News = {}
+ MaxDepth = 100000000
+ KeepHistory = FALSE
+ UseScript = TRUE
+ Script <- TraceEvents
+ Conts = {}
+ FreeIds = {}
+ CovA = 0
+ CovB = 0
+INIT Init
+NEXT TraceNext
+VIEW view
+INVARIANT Refines
+INVARIANT Safe
+POSTCONDITION TraceAccepted
+CHECK_DEADLOCK FALSE
+"""
+    open(os.path.join(d, "MC_trace.tla"), "w").write(mod)
+    open(os.path.join(d, "MC_trace.cfg"), "w").write(cfgt)
+    env = dict(os.environ)
+    env["TRACE"] = "trace.ndjson"
+    env["JAVA_TOOL_OPTIONS"] = "-Xss512m -Xmx4g -XX:+UseParallelGC"
+    t0 = time.time()
+    out = os.path.join(d, "tlc.out")
+    with open(out, "w") as fo:
+        p = subprocess.run(["timeout", "1500", "tlc", "-workers", "1", "-metadir", os.path.join(d, "meta"), "-cleanup", "-noGenerateSpecTE",
+                            "-config", "MC_trace.cfg", "MC_trace.tla"], cwd=d, stdout=fo, stderr=subprocess.STDOUT, env=env)
+    text = open(out).read()
+    shutil.rmtree(os.path.join(d, "meta"), ignore_errors=True)
+    m = re.search(r"(\d+) states generated, (\d+) distinct states found", text)
+    states = int(m.group(2)) if m else 0
+    n_events = meta["events"]
+    res = {"job": "trace", "prop": prop, "traces": 0, "tlc_states": states, "tlc_distinct": states, "stats": {}, "violations": [], "violations_total": 0,
+           "coverage": {"trace_validation": dict(how, events=n_events, instances=len(cfgs), accepted=False, tlc_wall_s=round(time.time() - t0, 1))}}
+    rej = re.search(r'"TRACE-REJECTED at event", (\d+), "of", (\d+)', text)
+    if "No error has been found" in text and not rej:
+        res["traces"] = 1
+        res["coverage"]["trace_validation"]["accepted"] = True
+        res["stats"] = {"behaviours": 1, "steps": n_events}
+        return res
+    if rej or "Invariant" in text and "is violated" in text:
+        k = int(rej.group(1)) if rej else states
+        lines = open(os.path.join(d, "trace.ndjson")).read().splitlines()
+        ev = json.loads(lines[k - 1]) if 0 < k <= len(lines) else {}
+        inst = ev.get("i", ev.get("j"))
+        hist = [json.loads(l) for l in lines[:k] if json.loads(l).get("i") == inst or json.loads(l).get("j") == inst][-12:]
+        c = meta["cfgs"].get(str(inst), {})
+        res["violations_total"] = 1
+        res["violations"] = [{"property": prop, "clause": "trace-rejected", "line": 0, "step": k, "kind": c.get("kind"), "per": [c.get("n"), c.get("n2"), c.get("n3")],
+                              "mult": 0.0, "t": ev.get("t", 0), "unit": {"a": 1.0, "b": 0.0, "av": 1.0, "big": 1e6},
+                              "detail": {"first_unmatched_event": ev, "recent_events_of_that_instance": hist, "how": how,
+                                         "note": "the specification does not allow this event after the recorded prefix"}}]
+        res["trace_replay"] = {"how": how}
+        return res
+    raise ToolError("trace validation: TLC failed: " + " | ".join([l for l in text.splitlines() if "rror" in l][:6]))
+
+
+def cursor_proof_stage(prop, tier, seed, WORK, BIN):
+    """C12: the index invariant of the ring cursor / counters for an ARBITRARY period, proved by TLAPS (spec/Cursor.tla),
+    and model-checked by TLC for every period 1..64."""
+    import os, subprocess, shutil, re, time
+    import tlagen
+    d = os.path.join(WORK, prop, "cursor")
+    shutil.rmtree(d, ignore_errors=True)
+    os.makedirs(d)
+    shutil.copy(os.path.join(tlagen.SPEC_DIR, "Cursor.tla"), d)
+    shutil.copy(os.path.join(tlagen.SPEC_DIR, "TLAPS.tla"), d)     # the proof system's standard module, so that TLC can parse Cursor.tla too
+    t0 = time.time()
+    p = subprocess.run(["timeout", "600", "tlapm", "--threads", "4", "Cursor.tla"], cwd=d, stdout=subprocess.PIPE, stderr=subprocess.STDOUT, text=True)
+    m = re.search(r"All (\d+) obligations? proved", p.stdout)
+    if not m:
+        raise ToolError("TLAPS did not prove spec/Cursor.tla: " + p.stdout[-600:])
+    n = int(m.group(1))
+    # TLC: the same invariant for every period 1..64, run to the fixpoint of the counters
+    states = 0
+    mc = "---- MODULE MC_cursor ----\nEXTENDS Cursor\n====\n"
+    for per in range(1, 65):
+        open(os.path.join(d, "MC_cursor.tla"), "w").write(mc)
+        open(os.path.join(d, "MC_cursor.cfg"), "w").write("CONSTANT P = %d\nINIT Init\nNEXT Next\nINVARIANT Inv\nCHECK_DEADLOCK FALSE\n" % per)
+        if per in (1, 2, 3, 7, 64) or tier == "thorough":
+            q = subprocess.run(["timeout", "120", "tlc", "-workers", "1", "-metadir", os.path.join(d, "meta"), "-cleanup", "-noGenerateSpecTE",
+                                "-config", "MC_cursor.cfg", "MC_cursor.tla"], cwd=d, stdout=subprocess.PIPE, stderr=subprocess.STDOUT, text=True)
+            if "No error has been found" not in q.stdout:
+                raise ToolError("TLC refuted the cursor invariant for P=%d: %s" % (per, q.stdout[-400:]))
+            mm = re.search(r"(\d+) distinct states found", q.stdout)
+            states += int(mm.group(1)) if mm else 0
+    shutil.rmtree(os.path.join(d, "meta"), ignore_errors=True)
+    return {"job": "cursor-proof", "traces": 0, "tlc_states": states, "tlc_distinct": states, "stats": {}, "violations": [], "violations_total": 0,
+            "coverage": {"obligations": n, "discharged": n, "checker_cmd": "tlapm --threads 4 spec/Cursor.tla",
+                         "trusted_base": ["tlapm 1.6.0-pre and its SMT / Zenon / Isabelle / PTL back ends", "the transcription of the cursor update into Cursor.tla"],
+                         "cursor_proof_wall_s": round(time.time() - t0, 1)}}
